@@ -146,7 +146,7 @@ theorem tdOKI_default (E : Ext R) (B : InvOp R) (hm : MmOKI E B) (hr : RmmOKI E 
   · exact (hm B.cols eyeM).trans (eqOn_mmul_eyeM_right B.rows B.cols _)
 
 /-- a member as `to_dense` of the composite kinds sees it -/
-def facTdI (E : Ext R) (M : InvOp R) : FacAct R := ⟨M.rows, M.cols, (M.td E).f, fun _ m => m⟩
+def facTdI (E : Ext R) (M : InvOp R) : FacAct R := ⟨M.rows, M.cols, (M.td E).f, fun _ m => MatV.of m⟩
 
 theorem facEqOnI_td (E : Ext R) (Ms : List (InvOp R)) (h : ∀ M ∈ Ms, TdOKI E M) :
     FacEqOn Ms (facTdI E) (facDenI E) := fun M hM => ⟨rfl, rfl, h M hM⟩
